@@ -170,6 +170,16 @@ Analyse(r) ==
 Accepted(r) == Has(r, "obs") /\ (Has(r.obs, "val") \/ Has(r.obs, "back"))
 Kind(r, k) == IF Has(r, "k") /\ r.k = k THEN 1 ELSE 0
 
+\* a history in one process: after the same magnitude with the other sign was parsed, the text is parsed once more
+\* (obs.again); what ParseDuration answers for a text does not depend on what it was asked before
+AgainVerdict(r) ==
+  IF ~(Has(r, "obs") /\ Has(r.obs, "again")) THEN {}
+  ELSE LET o == r.obs a == o.again IN
+       IF Has(a, "panic") THEN {V("panic", "second parse")}
+       ELSE IF Has(o, "err") /\ Has(a, "err") THEN {}
+       ELSE IF Has(o, "val") /\ Has(a, "val") /\ o.val = a.val THEN {}
+       ELSE {V("history-dependent", IF Has(a, "err") THEN "second parse rejects" ELSE IF Has(o, "err") THEN "second parse accepts" ELSE "second parse differs")}
+
 Init == l = 1 /\ cnt = [nt |-> 0, accepted |-> 0, unfit |-> 0, notok |-> 0, parse |-> 0, stmt |-> 0, format |-> 0]
 Step == /\ l <= Len(Trace)
         /\ LET r == Trace[l]
@@ -177,6 +187,7 @@ Step == /\ l <= Len(Trace)
                v == a.v IN
              /\ IF v.ok THEN TRUE
                 ELSE CSVWrite("%1$s", <<ToJson([id |-> r.id, class |-> v.class, sig |-> v.sig])>>, IOEnv.VERDICT_FILE)
+             /\ \A w \in AgainVerdict(r) : CSVWrite("%1$s", <<ToJson([id |-> r.id, class |-> w.class, sig |-> w.sig])>>, IOEnv.VERDICT_FILE)
              /\ cnt' = [nt |-> cnt.nt + (IF a.nt THEN 1 ELSE 0),
                         accepted |-> cnt.accepted + (IF Accepted(r) THEN 1 ELSE 0),
                         unfit |-> cnt.unfit + (IF a.unfit THEN 1 ELSE 0),
